@@ -433,6 +433,9 @@ pub enum Shape {
     CompetingReaders,
     /// a request carries the channel on which the answer is expected
     ChannelInMessage,
+    /// messages that hold handles to channels stay queued - one of them in the very channel it
+    /// refers to, two queues referring to each other - when the program ends or is dropped
+    QueuedCycle,
 }
 
 pub const DETERMINATE: &[Shape] = &[
@@ -453,6 +456,7 @@ pub const ALL: &[Shape] = &[
     Shape::FailingTask,
     Shape::CompetingReaders,
     Shape::ChannelInMessage,
+    Shape::QueuedCycle,
 ];
 
 pub fn generate(rng: &mut Rng, shapes: &[Shape], print_from_main: bool) -> Workload {
@@ -683,6 +687,22 @@ pub fn generate(rng: &mut Rng, shapes: &[Shape], print_from_main: bool) -> Workl
                 let v = kind.mk(0, i);
                 obs.push((i, format!("{}/{}", v.touch(4).show(), v.show())));
             }
+        }
+        Shape::QueuedCycle => {
+            src.push_str(&format!("type Link = {{\n    val: {ty}\n    next: channel<Link>\n}}\n\n"));
+            src.push_str("fn relay(inp: channel<Link>, n: int) {\n    for i in n {\n        let l = inp.read()\n        l.next.write(Link(touch(l.val, 2), inp))\n    }\n}\n\n");
+            src.push_str("let c: channel<Link> = channel()\nlet d: channel<Link> = channel()\n");
+            src.push_str("task {\n    relay(d, 1)\n}\n");
+            src.push_str("c.write(Link(mk(0, 1), c))\n");
+            src.push_str("c.write(Link(mk(0, 2), d))\n");
+            src.push_str("d.write(Link(mk(0, 3), c))\n");
+            src.push_str(&maybe_pause(rng, ""));
+            src.push_str("let first = c.read()\n");
+            src.push_str(&say(0, "show(first.val)"));
+            src.push_str(&maybe_work(rng, ""));
+            obs.push((0, kind.mk(0, 1).show()));
+            projection = Projection::MainOnly;
+            drains = false;
         }
         Shape::FailingTask => {
             let ok = rng.range(1, 3) as i64;
